@@ -59,10 +59,19 @@ type world struct {
 	clients  map[string]int
 	foreign  map[string]int // valid identities not belonging to a harness account
 	connSeed uint64
+
+	chkMu       sync.Mutex
+	checkers    map[string]hs.CredentialChecker
+	services    map[string]*liveService
+	retainedRes []retained
+	// earlier operations on the same node that a reported input depends on (genuine handshakes
+	// before a replay): prepended to the ops of violations so that the replay file is self-contained
+	history []string
 }
 
 func newWorld(r *corr.Run) *world {
-	w := &world{r: r, sigs: map[string]sigInfo{}, clients: map[string]int{}, foreign: map[string]int{}}
+	w := &world{r: r, sigs: map[string]sigInfo{}, clients: map[string]int{}, foreign: map[string]int{},
+		checkers: map[string]hs.CredentialChecker{}, services: map[string]*liveService{}}
 	for i := 0; i < 4; i++ {
 		k, err := accountdata.NewRandom()
 		if err != nil {
@@ -156,13 +165,56 @@ func b01(b bool) string {
 	return "0"
 }
 
+// checker returns the credential checker of a node with this configuration. Like the checkers of a
+// running secure service it is ONE long-lived instance serving every connection of that node: all
+// sessions with the same (mode, account, own peer id, version, accepted list, client) share it, so
+// anything an instance remembers from earlier handshakes is exercised by later ones.
 func (w *world) checker(c sideCfg) hs.CredentialChecker {
+	key := fmt.Sprintf("%v|%d|%s|%d|%v|%s", c.verify, c.acct, c.lp, c.ver, c.compat, c.client)
+	w.chkMu.Lock()
+	defer w.chkMu.Unlock()
+	if cc, ok := w.checkers[key]; ok {
+		w.r.Count("checker.reused")
+		return cc
+	}
+	var cc hs.CredentialChecker
 	if c.verify {
 		a := w.accts[c.acct].keys
-		return secureservice.VerifNewPeerSignVerifier(c.ver, c.compat, c.client,
+		cc = secureservice.VerifNewPeerSignVerifier(c.ver, c.compat, c.client,
 			&accountdata.AccountKeys{PeerKey: a.PeerKey, SignKey: a.SignKey, PeerId: c.lp})
+	} else {
+		cc = secureservice.VerifNewNoVerifyChecker(c.ver, c.compat, c.client)
 	}
-	return secureservice.VerifNewNoVerifyChecker(c.ver, c.compat, c.client)
+	w.checkers[key] = cc
+	w.r.Count("checker.new")
+	return cc
+}
+
+// retained: what an established connection got attached; must never change afterwards.
+type retained struct {
+	live []byte // the very slice handed out by the handshake / stored in the connection context
+	snap []byte // its content at the time the connection was established
+	ops  []string
+	desc string
+}
+
+// recheckRetained: "the identity attached to the connection is the one that signature proves" is a
+// statement about the connection for as long as it lives — re-evaluated after every later handshake.
+func (w *world) recheckRetained(stream string, laterOps []string) {
+	keep := w.retainedRes[:0]
+	for _, rt := range w.retainedRes {
+		if string(rt.live) != string(rt.snap) {
+			w.r.Violate("C14", "", "hs.attached-identity-changed",
+				fmt.Sprintf("identity attached to an established connection (%s) changed from %s to %s after a later handshake on the same node (%s)",
+					rt.desc, w.ident(rt.snap), w.ident(rt.live), stream), append(append([]string{}, rt.ops...), laterOps...))
+			continue
+		}
+		keep = append(keep, rt)
+	}
+	w.retainedRes = keep
+	if len(w.retainedRes) > 48 {
+		w.retainedRes = w.retainedRes[len(w.retainedRes)-48:]
+	}
 }
 
 type sideRun struct {
@@ -602,6 +654,9 @@ func (w *world) judge(stream string, s *sideRun, hung bool) (obs string) {
 	}
 	obs = w.observe(s)
 	model, ops := w.askSess(s.cfg, s.fed, s.end)
+	if len(w.history) > 0 {
+		ops = append(append([]string{}, w.history...), ops...)
+	}
 	// raw-peer and boundary streams are also the C11 evidence for the frame reader: property ""
 	// = every property that lists this area
 	prop := "C14"
@@ -643,6 +698,11 @@ func (w *world) judge(stream string, s *sideRun, hung bool) (obs string) {
 	// peer would read it as success and the two ends would disagree
 	if wrote := showFrames(s.c.written()); strings.Contains(wrote, "A0") && !w.acceptedPeer(s) {
 		r.Violate("C14", "", stream+".null-ack-on-rejection", "side sent ack(Null) although it did not accept the peer's credentials ("+l.why+"): its peer reads success while this side fails — different verdicts (wrote "+wrote+")", ops)
+	}
+	w.recheckRetained(stream, ops)
+	if s.err == nil && len(s.res.Identity) > 0 {
+		w.retainedRes = append(w.retainedRes, retained{live: s.res.Identity, snap: append([]byte{}, s.res.Identity...), ops: ops,
+			desc: fmt.Sprintf("%s side %s, peer %s", s.cfg.role, s.cfg.lp, s.cfg.rp)})
 	}
 	if s.c.maxReq > sizeLimit+hdr {
 		r.Violate(prop, "", stream+".alloc", fmt.Sprintf("a single read asked for %d bytes (> frame limit)", s.c.maxReq), ops)
@@ -1537,6 +1597,8 @@ func (w *world) replays() {
 		return
 	}
 	f1, f2, f3, f4 := po.frames[1], po.frames[2], po.frames[3], po.frames[4]
+	w.history = []string{"genuine handshake first: " + w.pairLine(oc, ic)}
+	defer func() { w.history = nil }()
 	others := []string{}
 	for _, p := range peerPool {
 		others = append(others, p)
@@ -1624,6 +1686,69 @@ func (w *world) poolSessions(single bool) {
 	}
 }
 
+// instanceHistory: ONE verifying node serves several genuine handshakes from distinct accounts and
+// transport peers, one after the other; after each of them every earlier connection is re-examined
+// (attached identity unchanged), and frames recorded on an earlier, genuinely accepted connection are
+// replayed byte for byte to the SAME node from other transport peers.
+func (w *world) instanceHistory(single bool) {
+	r := w.r
+	if single {
+		prev := runtime.GOMAXPROCS(1)
+		defer runtime.GOMAXPROCS(prev)
+	}
+	role := "in"
+	if r.Chance(40) {
+		role = "out"
+	}
+	node := sideCfg{role: role, verify: true, acct: r.Intn(len(w.accts)), lp: peerPool[r.Intn(len(peerPool))], ver: 13, compat: []uint32{12, 13}, client: "v1"}
+	if r.Chance(40) {
+		node.service, node.svc = true, svcMode{r.Chance(50)}
+	}
+	type rec struct {
+		rp     string
+		stream []byte
+		op     string
+	}
+	defer func() { w.history = nil }()
+	var recs []rec
+	perm := r.Perm(len(w.accts))
+	for k := 0; k < 2+r.Intn(3); k++ {
+		acct := perm[k%len(perm)]
+		v := node
+		for v.rp = peerPool[r.Intn(len(peerPool))]; v.rp == v.lp; v.rp = peerPool[r.Intn(len(peerPool))] {
+		}
+		cs := credSpec{typ: u32(1), ver: u32(12 + uint32(r.Intn(2))), client: str("cli/2.0"), hasPl: true,
+			payload: signedPayload(w.accts[acct].idBytes, w.sign(acct, v.rp+v.lp), true, true)}
+		data := append(frame(1, cs.bytes()), ackFrame(0, false)...)
+		s := w.rawSession("hs.history.genuine", v, data, "eof", false)
+		if s.err != nil {
+			r.Violate("C14", "", "hs.history.refused", "a genuine, correctly signed handshake was refused by a node that served other connections before",
+				[]string{"sess " + v.wire(w) + " stream=" + hexOrDash(s.fed)})
+		} else {
+			recs = append(recs, rec{v.rp, data, "sess " + v.wire(w) + " stream=" + hexOrDash(data)})
+			w.history = append(w.history, "earlier on this node: "+recs[len(recs)-1].op)
+		}
+		r.Count("history.genuine")
+	}
+	// byte-exact replays to the very node that accepted them, from other transport peers
+	for _, rc := range recs {
+		for _, other := range peerPool {
+			if other == rc.rp || other == node.lp {
+				continue
+			}
+			v := node
+			v.rp = other
+			s := w.rawSession("hs.history.replay", v, rc.stream, "eof", false)
+			if s.err == nil {
+				r.Violate("C14", "", "hs.replay.accepted", fmt.Sprintf("credentials accepted on (%s,%s) were accepted again, byte for byte, from transport peer %s by the same node", rc.rp, node.lp, other),
+					[]string{rc.op, "sess " + v.wire(w) + " stream=" + hexOrDash(s.fed)})
+			}
+			r.Count("history.replay")
+		}
+	}
+	r.Case(fmt.Sprintf("history %s %d", node.wire(w), len(recs)), true)
+}
+
 func (w *world) poolConcurrent() {
 	r := w.r
 	n := 4 + r.Intn(8)
@@ -1705,6 +1830,8 @@ func Run(r *corr.Run) {
 	}
 	w.replays()
 	w.poolSessions(true)
+	w.instanceHistory(true)
+	w.instanceHistory(true)
 	rounds := 0
 	for r.TimeLeft() && rounds < r.Pick(1200, 20000) {
 		rounds++
@@ -1747,7 +1874,11 @@ func Run(r *corr.Run) {
 		case k < 17:
 			w.rawRandom()
 		case k < 18:
-			w.poolSessions(r.Chance(70))
+			if r.Chance(50) {
+				w.instanceHistory(r.Chance(70))
+			} else {
+				w.poolSessions(r.Chance(70))
+			}
 		case k < 19:
 			w.poolConcurrent()
 		default:
